@@ -154,6 +154,16 @@ pub fn run(scn: &Value) -> Value {
         contents.push(c); rels.push(rel);
     }
     for d in util::arr(&scn["emptydirs"]) { let _ = std::fs::create_dir_all(root.join(segs(d).join("/"))); }
+    // entries that are neither regular files nor directories (two runs in three): a symbolic link whose target is missing and a FIFO, in the
+    // root and next to every file.  They are not "regular files under the directory": nothing is served for them, and they change nothing else.
+    if salt % 3 != 0 {
+        let mut dirs: Vec<PathBuf> = vec![root.clone()];
+        for rel in &rels { if let Some(d) = root.join(rel).parent() { if !dirs.contains(&d.to_path_buf()) { dirs.push(d.to_path_buf()) } } }
+        for d in dirs {
+            for name in ["0-gone.lnk", "m-gone.lnk", "zz-gone.lnk"] { let _ = std::os::unix::fs::symlink(d.join("no-such-target"), d.join(name)); }
+            if let Ok(c) = std::ffi::CString::new(d.join("a-fifo").to_string_lossy().as_bytes()) { unsafe { libc::mkfifo(c.as_ptr(), 0o600); } }
+        }
+    }
     // files outside the mounted directory: a sibling file, a sibling directory whose name extends the mounted
     // directory's name, and a file in the parent's parent
     let outside = b"OUTSIDE: this file is not under the mounted directory\n".to_vec();
